@@ -91,6 +91,8 @@ type mCell struct {
 	itemID int
 	item   interface{}
 	owner  *propOwner // C12 model of this live cell's properties (lazily made)
+	row    *mRow      // the row holding the cell (set when it is added)
+	idx    int        // 0-based position in that row
 }
 
 type mRow struct {
@@ -136,22 +138,32 @@ type World struct {
 	nextErr    int
 
 	// property model (C12)
-	tableOwner *propOwner
-	colOwners  []*propOwner // index = column number
-	extraOwn   []*propOwner // copies and handles
-	keyPool    []interface{}
+	tableOwner       *propOwner
+	colOwners        []*propOwner // index = column number
+	extraOwn         []*propOwner // copies and handles
+	keyPool          []interface{}
+	nextVal          int
+	rendered         bool // at least one render pass happened (cells may carry renderer-private keys)
+	tagged           bool // tagColumns() has put the identity key on the columns
+	pendingViolation *Violation
 
 	// callbacks (C13)
-	regs     []*SimCallback
-	cbEvents []cbEvent
-	colIDKey interface{}
+	regs         []*SimCallback
+	cbEvents     []cbEvent
+	expAdd       []cbExpect
+	passExpected []cbExpect
+	inPass       bool
+	inHeaders    bool
+	errSink      *mRow // detached row currently receiving callback errors, or nil = table
+	pendingRow   *mRow // row being created inside the table by the current step
+	itemByVal    map[interface{}]int
 
 	Probes map[string]int
 	Faults map[string]int
 }
 
 func NewWorld(kind int, style string, y Yielder, log *EventLog) *World {
-	w := &World{Y: y, Log: log, Kind: kind, itemCell: map[int]*mCell{}, Probes: map[string]int{}, Faults: map[string]int{}}
+	w := &World{Y: y, Log: log, Kind: kind, itemCell: map[int]*mCell{}, itemByVal: map[interface{}]int{}, Probes: map[string]int{}, Faults: map[string]int{}}
 	switch kind {
 	case 1:
 		t := csv.New()
@@ -212,6 +224,18 @@ func coreOf(t tabular.Table) *tabular.ATable {
 
 func (w *World) probe(name string) { w.Probes[name]++ }
 
+// bindPending learns the *Row of a row the table created internally (it is the
+// last entry of AllRows() as soon as the table has appended it).
+func (w *World) bindPending() {
+	mr := w.pendingRow
+	if mr == nil || mr.real != nil {
+		return
+	}
+	if all := w.Core.AllRows(); len(all) == len(w.rows)+1 {
+		mr.real = all[len(all)-1]
+	}
+}
+
 func (w *World) newItem(it Item) (interface{}, int) {
 	w.nextItem++
 	id := w.nextItem
@@ -226,6 +250,11 @@ func (w *World) newCells(items []Item) ([]interface{}, []*mCell) {
 		vals[i] = v
 		cells[i] = &mCell{itemID: id, item: v}
 		w.itemCell[id] = cells[i]
+		if v != nil {
+			if _, dup := w.itemByVal[v]; !dup {
+				w.itemByVal[v] = id
+			}
+		}
 	}
 	return vals, cells
 }
@@ -294,9 +323,15 @@ func (w *World) Do(st *Step) bool {
 	switch st.Op {
 	case "headers":
 		vals, cells := w.newCells(st.Items)
+		hdr := &mRow{cells: cells, header: true}
+		for i, c := range cells {
+			c.row, c.idx = hdr, i
+		}
+		w.inHeaders = true
 		w.Tab.AddHeaders(vals...)
+		w.inHeaders = false
 		w.headerSet = true
-		w.header = &mRow{cells: cells, header: true}
+		w.header = hdr
 		if len(cells) > w.headerMaxEver {
 			w.headerMaxEver = len(cells)
 		}
@@ -304,14 +339,16 @@ func (w *World) Do(st *Step) bool {
 		w.expectAddTime(w.header, true)
 	case "rowItems":
 		vals, cells := w.newCells(st.Items)
-		before := w.Core.NRows()
-		w.Tab.AddRowItems(vals...)
 		mr := &mRow{cells: cells, attached: true, pos: len(w.rows) + 1, handle: len(w.handles)}
-		if all := w.Core.AllRows(); len(all) == before+1 {
-			mr.real = all[before]
+		for i, c := range cells {
+			c.row, c.idx = mr, i
 		}
-		w.rows = append(w.rows, mr)
 		w.handles = append(w.handles, mr)
+		w.pendingRow = mr
+		w.Tab.AddRowItems(vals...)
+		w.bindPending()
+		w.pendingRow = nil
+		w.rows = append(w.rows, mr)
 		w.syncColumns()
 		w.expectAddTime(mr, false)
 	case "newRow":
@@ -361,19 +398,22 @@ func (w *World) Do(st *Step) bool {
 		w.movePending(h)
 		w.expectAddTime(h, false)
 	case "appendNewRow":
-		r := w.Tab.AppendNewRow()
-		mr := &mRow{real: r, attached: true, pos: len(w.rows) + 1, handle: len(w.handles)}
-		w.rows = append(w.rows, mr)
+		mr := &mRow{attached: true, pos: len(w.rows) + 1, handle: len(w.handles)}
 		w.handles = append(w.handles, mr)
-	case "separator":
-		before := w.Core.NRows()
-		w.Tab.AddSeparator()
-		mr := &mRow{sep: true, attached: true, pos: len(w.rows) + 1, handle: len(w.seps)}
-		if all := w.Core.AllRows(); len(all) == before+1 {
-			mr.real = all[before]
-		}
+		w.pendingRow = mr
+		r := w.Tab.AppendNewRow()
+		w.pendingRow = nil
+		mr.real = r
 		w.rows = append(w.rows, mr)
+		w.expectAddTime(mr, false)
+	case "separator":
+		mr := &mRow{sep: true, attached: true, pos: len(w.rows) + 1, handle: len(w.seps)}
 		w.seps = append(w.seps, mr)
+		w.pendingRow = mr
+		w.Tab.AddSeparator()
+		w.bindPending()
+		w.pendingRow = nil
+		w.rows = append(w.rows, mr)
 	case "sepAdd":
 		i := pick(len(w.seps), st.A)
 		if i < 0 || len(st.Items) == 0 || w.seps[i].real == nil {
@@ -403,4 +443,56 @@ func (w *World) Do(st *Step) bool {
 		return false
 	}
 	return true
+}
+
+// RenderOutcome is what a scripted render step produced.
+type RenderOutcome struct {
+	Spec    RenderSpec
+	Out     string
+	Err     error
+	Panic   *PanicInfo
+	Faulted bool // a writer fault was injected (the output is partial by design)
+	Writer  *SimWriter
+}
+
+// ApplyRender executes a "render" step: A format, B decoration, C via,
+// D flags (bit0/1 renderer options, bit2 writer offers WriteString),
+// E bit0 use RenderTo(SimWriter); Plan [k, mode, frac] injects a writer fault.
+func (w *World) ApplyRender(st *Step) *RenderOutcome {
+	spec := specOf(st)
+	ro := &RenderOutcome{Spec: spec}
+	if len(st.Plan) >= 2 && st.Plan[1] != FaultNone {
+		spec.ToWriter = true
+	}
+	if !spec.ToWriter {
+		ro.Out, ro.Err, ro.Panic = w.Render(spec, nil)
+		return ro
+	}
+	wr, sw := newSimWriter(st.D, w.Y)
+	if len(st.Plan) >= 2 {
+		sw.FaultAt, sw.Mode = st.Plan[0], pick(4, st.Plan[1])
+		if len(st.Plan) >= 3 {
+			sw.Frac = pick(100, st.Plan[2])
+		}
+	}
+	ro.Spec = spec
+	_, ro.Err, ro.Panic = w.Render(spec, wr)
+	ro.Out = string(sw.Accepted)
+	ro.Writer = sw
+	if sw.Fired > 0 {
+		ro.Faulted = true
+		w.Faults[faultNames[sw.Mode]]++
+	}
+	return ro
+}
+
+// Apply executes any non-render step.  It returns a violation only for
+// checks that are made at the call itself (registration results).
+func (w *World) Apply(st *Step) *Violation {
+	w.beginStep()
+	if w.Do(st) || w.DoErr(st) || w.DoProp(st) || w.doColumnSetting(st) {
+		return nil
+	}
+	_, v := w.DoCB(st)
+	return v
 }
